@@ -2,7 +2,7 @@
 /* C07.update_base_password: password := input; empty input removes the password (and the ":" ) */
 void harness(void) {
   EDITOR_PROLOGUE
-  sv_t input; input.n = nondet_size(); MAKE_SV(input);
+  ND_SV(input);
   __CPROVER_assume(IN_CLASS(input, ':', '@', '/', '?', '#'));
   __CPROVER_assume(v0.has_authority && v0.host.n > 0);
   __CPROVER_assume(u.buffer.n + input.n + 2 <= STR_CAP);
